@@ -8,6 +8,7 @@ import (
 	"fmt"
 	"net"
 	"net/netip"
+	"sort"
 	"sync"
 	"testing"
 	"testing/synctest"
@@ -15,6 +16,7 @@ import (
 
 	"github.com/mdlayher/corerad/internal/config"
 	"github.com/mdlayher/corerad/internal/netstate"
+	"github.com/mdlayher/corerad/internal/plugin"
 	"github.com/mdlayher/corerad/internal/system"
 	"github.com/mdlayher/corerad/internal/vfh"
 	"github.com/mdlayher/metricslite"
@@ -304,6 +306,90 @@ func (p *hookPlugin) Prepare(*net.Interface) error {
 	return nil
 }
 func (*hookPlugin) Apply(*ndp.RouterAdvertisement) error { return nil }
+
+// runAdvCountdown (C16): a deprecated prefix and a deprecated route inside a running advertiser.  EVERY
+// RA it transmits — initial, periodic, solicited, and the final one on termination — advertises the
+// time remaining at the moment that RA is built.  One `pl` and one `rl` case line per run: the
+// instants of the transmissions (virtual time) and the lifetimes each carried.
+func runAdvCountdown(t *testing.T, out *vfh.Out, V, P, L, age, stop time.Duration, solicitAt []time.Duration) {
+	out.Pending(fmt.Sprintf("runAdvCountdown V=%v P=%v L=%v age=%v stop=%v solicit=%v", V, P, L, age, stop, solicitAt))
+	synctest.Test(t, func(t *testing.T) {
+		epoch := time.Now().Add(-age)
+		cfg := vfAdvConfig(4*time.Second, 4*time.Second, false, 1800*time.Second)
+		cfg.Plugins = []plugin.Plugin{
+			&plugin.Prefix{Prefix: netip.MustParsePrefix("2001:db8:dead::/64"), OnLink: true, Autonomous: true,
+				ValidLifetime: V, PreferredLifetime: P, Deprecated: true, Epoch: epoch},
+			&plugin.Route{Prefix: netip.MustParsePrefix("2001:db8:beef::/48"), Preference: ndp.Medium, Lifetime: L, Deprecated: true, Epoch: epoch},
+		}
+		v := newVfAdv(cfg, true, nil)
+		// the connection stamps every write with the wall clock of the bubble
+		ctx, cancel := context.WithCancel(context.Background())
+		start := time.Now()
+		v.conn.t0 = start
+		done := make(chan error, 1)
+		go func() { done <- v.a.Run(ctx) }()
+		synctest.Wait()
+		for _, at := range solicitAt {
+			if d := at - time.Since(start); d > 0 {
+				time.Sleep(d)
+			}
+			v.conn.deliver(vfRead{m: advMessage(advEvent{kind: 0, host: 1}), hop: 255, host: vfHosts[1].WithZone("vf0")})
+			synctest.Wait()
+		}
+		if d := stop - time.Since(start); d > 0 {
+			time.Sleep(d)
+		}
+		cancel()
+		select {
+		case <-done:
+		case <-time.After(10 * time.Minute):
+		}
+		synctest.Wait()
+		ws := v.conn.snapshot()
+		e := epoch.UnixNano()
+		pc := new(vfh.Toks).S("pl").B(true).I(e).I(int64(V)).I(int64(P)).I(0).N(len(ws))
+		rc := new(vfh.Toks).S("rl").B(true).I(e).I(int64(L)).I(0).N(len(ws))
+		pi, ri := new(vfh.Toks), new(vfh.Toks)
+		for _, w := range ws {
+			at := start.Add(w.begin).UnixNano()
+			pc.I(at)
+			rc.I(at)
+			pv, pp, rl := int64(-1), int64(-1), int64(-1)
+			if w.ra != nil {
+				for _, o := range w.ra.Options {
+					switch o := o.(type) {
+					case *ndp.PrefixInformation:
+						pv, pp = int64(o.ValidLifetime), int64(o.PreferredLifetime)
+					case *ndp.RouteInformation:
+						rl = int64(o.RouteLifetime)
+					}
+				}
+			}
+			pi.I(pv).I(pp).N(1)
+			ri.I(rl).N(1)
+		}
+		out.Line(pc.String(), pi.String())
+		out.Line(rc.String(), ri.String())
+		out.Flush()
+	})
+}
+
+func verifAdvCountdown(t *testing.T, r *vfh.Rand, out *vfh.Out) {
+	runAdvCountdown(t, out, 20*time.Second, 10*time.Second, 15*time.Second, 0, 13*time.Second+1, nil)
+	runAdvCountdown(t, out, 4*time.Second, 2*time.Second, 3*time.Second, 0, 4500*time.Millisecond, nil)
+	for k := vfh.N(40, 1000); k > 0; k-- {
+		V := time.Duration(r.Range(int64(time.Second), int64(40*time.Second)))
+		P := time.Duration(r.Range(1, int64(V)))
+		L := time.Duration(r.Range(int64(time.Second), int64(40*time.Second)))
+		stop := time.Duration(r.Range(int64(time.Second), int64(45*time.Second))) | 1
+		var sol []time.Duration
+		for j := r.Intn(3); j > 0; j-- {
+			sol = append(sol, time.Duration(r.Range(1, int64(stop)))|1)
+		}
+		sort.Slice(sol, func(i, j int) bool { return sol[i] < sol[j] })
+		runAdvCountdown(t, out, V, P, L, time.Duration(r.Range(0, int64(20*time.Second))), stop, sol)
+	}
+}
 
 func verifLinkFlap(t *testing.T, r *vfh.Rand, out *vfh.Out) {
 	for _, mon := range []bool{false, true} {
